@@ -318,6 +318,10 @@ def validate_config(config: dict[str, Any]) -> tuple[bool, list[str]]:
     """
     errors: list[str] = []
 
+    # Judge the configuration as it will be read back: the loader turns hyphens in top-level
+    # keys into underscores, so "log-level: bogus" IS an invalid log_level after the next load.
+    config = {str(key).replace("-", "_"): value for key, value in config.items()}
+
     _validate_required_keys(config, errors)
     _validate_log_level(config, errors)
     _validate_output_format(config, errors)
